@@ -30,6 +30,9 @@ WATCHDOG_S = float(os.environ.get('VF_C16_WATCHDOG_S', '30'))
 # still generous for them (and is only ever a verdict after ATTEMPTS
 # reproductions)
 HANG_WATCHDOG_S = float(os.environ.get('VF_C16_HANG_WATCHDOG_S', '8'))
+# a call that the main thread has been in for less than this when a watchdog
+# fires was not observed to hang
+MIN_HANG_WAIT_S = 5.0
 ATTEMPTS = 3
 
 # ways to make start() fail part-way, and what it must raise then
@@ -964,7 +967,20 @@ def run_case(ctx, i, rng):
             completed = True
         except lk.WatchdogFired as wf:
             mech = None
-            if run.phase == 'stop':
+            calls = [t for t, k, _ in run.log.snapshot()
+                     if k in ('stop-call', 'start-call')]
+            waited = lk.CLOCK() - calls[-1] if calls else 0.0
+            if waited < MIN_HANG_WAIT_S and watchdog_s < WATCHDOG_S:
+                # the short budget of hang-prone cases is one for the whole
+                # case; it ran out while the call the main thread was in had
+                # not been waited for long: no hang was observed.  The same
+                # case again with the long budget.
+                ctx.count('short-watchdog-fired-outside-a-hang')
+                watchdog_s = WATCHDOG_S
+                run.phase = 'budget'
+            if run.phase == 'budget':
+                pass
+            elif run.phase == 'stop':
                 cb_now = any(t.name == 'CallbackThread'
                              for t in lk.foreign_threads()
                              if t not in run.stale)
@@ -982,7 +998,8 @@ def run_case(ctx, i, rng):
                 elif '_stop_indication_delivery' in wf.in_funcs and \
                         not cb_now:
                     mech = CB_DEAD
-            hangs.append((run.phase, wf.in_funcs, mech))
+            if run.phase != 'budget':
+                hangs.append((run.phase, wf.in_funcs, mech))
             if mech and len(hangs) == 1:
                 ledger.claim(mech)
         except Exception:
